@@ -28,7 +28,7 @@ def _copy(src, dst):
     shutil.copytree(src, dst, symlinks=True)
 
 
-def _run_op_child(folder, cfg, pool, op, mode, k, log_path, out_path, src_folder=None):
+def _run_op_child(folder, cfg, pool, op, mode, k, log_path, out_path, src=None):
     """forked child: open a handle on `folder`, run `op` with the tracer; mode: 'trace' | 'crash' | 'fault'"""
     pid = os.fork()
     if pid:
@@ -69,6 +69,13 @@ def _run_op_child(folder, cfg, pool, op, mode, k, log_path, out_path, src_folder
         runner.pool, runner.scratch, runner.step = pool, os.path.dirname(folder), 0
         runner.res = store.CaseResult(case={})
         runner.conts = {'a': rc}
+        if src is not None:
+            src_folder, src_cfg, src_expected = src
+            rb = store.RealCont.__new__(store.RealCont)
+            rb.dos, rb.name, rb.folder, rb.cfg, rb.pool = dos, 'b', src_folder, src_cfg, pool
+            rb.c = dos.Container(src_folder)
+            rb.expected = set(src_expected)
+            runner.conts['b'] = rb
         runner.damaged = set()
         tracer = iotrace.Tracer(folder, hook=hook, log_fd=log_fd).install()
         try:
@@ -76,6 +83,8 @@ def _run_op_child(folder, cfg, pool, op, mode, k, log_path, out_path, src_folder
         finally:
             tracer.uninstall()
         rc.close()
+        for other in runner.conts.values():
+            other.close()
         with open(out_path, 'w') as fh:
             json.dump({'out': out, 'n': len(tracer.events), 'failures': runner.res.failures}, fh)
     except BaseException:  # pylint: disable=broad-except
@@ -177,27 +186,56 @@ class Lab:
         drv = common.Driver()
         runner = None
         try:
-            runner = store.Runner(drv, pool, {'a': cfg}, scratch, res, check_views=False)
+            want_import = rng.random() < 0.3
+            cfgs = {'a': cfg}
+            if want_import:
+                cfgs['b'] = store.default_cfg(rng, 0.5)
+            runner = store.Runner(drv, pool, cfgs, scratch, res, check_views=False)
             runner.check_trace = True
             weights = {'addLoose': 30, 'addPacked': 22, 'packAll': 10, 'delete': 6, 'clean': 4, 'repackOne': 3, 'loosen': 3}
             for _ in range(rng.randint(2, 9)):
                 op = gen.next_op(rng, runner, weights=weights)
                 for one in (op if isinstance(op, list) else [op]):
+                    if one['op'] == 'import':
+                        continue
                     runner.apply(one)
-            target_w = {'addLoose': 14, 'addPacked': 22, 'packAll': 22, 'clean': 8, 'delete': 12, 'repackOne': 22}
-            op = gen.next_op(rng, runner, weights=target_w)
+            target_w = {'addLoose': 12, 'addPacked': 30, 'packAll': 22, 'clean': 6, 'delete': 10, 'repackOne': 20}
+            op = gen.next_op(rng, runner, weights=target_w, allow=set(target_w))
             if isinstance(op, list):
                 op = op[-1]
+            op['on'] = 'a'
+            if want_import:
+                srcc = runner.conts['b']
+                have = sorted(srcc.expected)
+                dest_rows = {runner.conts['a'].cid(r[1]) for r in runner.conts['a'].raw().rows}
+                same = srcc.cfg.hash_type == cfg.hash_type
+                cand = [x for x in have if same or x not in dest_rows]
+                if cand:
+                    ks = rng.sample(cand, min(len(cand), rng.randint(1, 5)))
+                    sizes = sorted(pool.size(x) for x in ks)
+                    op = {'op': 'import', 'on': 'a', 'src': 'b', 'ks': ks, 'compress': rng.random() < 0.5, 'iter': 'list', 'callback': False,
+                          'budget': rng.choice([1, sizes[len(sizes) // 2] + 1, 104857600])}
+            if op['op'] in ('addPacked', 'import') and 'power' not in self.parts and rng.random() < 0.5:
+                op['do_fsync'] = False
+                if op['op'] == 'addPacked' and rng.random() < 0.7:
+                    op['no_holes'] = False  # (the final truncate() of no_holes flushes the buffer)
             if op['op'] == 'addPacked' and op.get('via') in ('single', 'midstream', 'lazy'):
                 op['via'] = 'bytes'
             if op['op'] == 'reopen':
                 op = {'op': 'addLoose', 'on': 'a', 'c': rng.randrange(len(pool)), 'via': 'bytes'}
             rc = runner.conts['a']
+            self.src = None
+            if op['op'] == 'import':
+                sb = runner.conts['b']
+                sb.close()
+                self.src = (sb.folder, sb.cfg, set(sb.expected))
             if any(d for d in res.diffs):
                 d = res.diffs[0]
                 self.breaks.append({'where': f'{d[1]} after {d[4]} while preparing the scenario', 'model': str(d[2])[:300], 'real': str(d[3])[:300],
                                     'theorem_or_correspondence': 'Level-B/Level-C model vs Container', 'case': res.case})
-                return
+                if any(d[1] != 'trace' for d in res.diffs):
+                    return  # the model lost track of the state: nothing more can be compared
+                # only the order of I/O calls differs: the states still agree, so the search for a failing input goes on
             self.stats['traces_compared'] = res.stats.get('traces_compared', 0)
             rc.close()
             # every child opens a fresh handle (no cached pack id): tell the model
@@ -220,7 +258,7 @@ class Lab:
         # ---- traced run on a copy: the real event list, the choices, the model's action list
         tdir = os.path.join(scratch, 'trace')
         _copy(base, tdir)
-        _run_op_child(tdir, cfg, pool, op, 'trace', -1, os.path.join(scratch, 'trace.log'), os.path.join(scratch, 'trace.out'))
+        _run_op_child(tdir, cfg, pool, op, 'trace', -1, os.path.join(scratch, 'trace.log'), os.path.join(scratch, 'trace.out'), self.src)
         try:
             out = json.load(open(os.path.join(scratch, 'trace.out')))
         except Exception:  # pylint: disable=broad-except
@@ -239,6 +277,22 @@ class Lab:
         if kind == 'clean':
             order = [int(t.split(':')[1]) for t in real_toks if t.startswith('looseUnlink:')]
             args = f'clean {store.show_nats(order)}'
+        elif kind == 'import':
+            # the calls import_objects made: one per session of the trace, each with as many objects as rows it inserted
+            pre_keys = {r[1] for r in pre.rows}
+            new = [r for r in post.rows if r[1] not in pre_keys]
+            written = []
+            for p_ in sorted({r[2] for r in new}):
+                written += [cid_of(r[1]) for r in store.rows_sorted_for_order([r for r in new if r[2] == p_])]
+            calls, pos = [], 0
+            for ev in events:
+                if ev[0] == 'sql' and ev[1] == 'INSERT':
+                    calls.append(written[pos:pos + ev[2]])
+                    pos += ev[2]
+            same = self.src[1].hash_type == cfg.hash_type
+            nh = 0 if same else 1
+            args = (f'import {store.b01(op["compress"])} {nh} {nh} {0 if op.get("do_fsync") is False else 1} '
+                    + ('|'.join(store.show_nats(c_) for c_ in calls) if calls else '-'))
         else:
             args = runner.ir_args(rc, op, line)
         ans = runner._ask(f'store acts a {args}')  # pylint: disable=protected-access
@@ -272,6 +326,8 @@ class Lab:
             expected_after.update(op['cs'])
         elif kind == 'delete':
             expected_after.difference_update(k for k in op['ks'] if isinstance(k, int))
+        elif kind == 'import':
+            expected_after.update(k for k in op['ks'] if k in self.src[2])
 
         self.acts_list = acts.strip().split(' ') if acts.strip() != '-' else []
 
@@ -379,7 +435,7 @@ class Lab:
         d = os.path.join(scratch, f'crash{k}')
         _copy(rc.folder, d)
         log = os.path.join(scratch, f'crash{k}.log')
-        _run_op_child(d, cfg, pool, op, 'crash', k, log, os.path.join(scratch, f'crash{k}.out'))
+        _run_op_child(d, cfg, pool, op, 'crash', k, log, os.path.join(scratch, f'crash{k}.out'), self.src)
         ev_k, syncs, _ = read_log(log)
         self.bump('crash_points')
         deterministic = _norm(ev_k[:k]) == _norm(events[:k]) if k <= len(events) else False
@@ -418,7 +474,7 @@ class Lab:
         _copy(rc.folder, d)
         log = os.path.join(scratch, f'fault{k}.log')
         outp = os.path.join(scratch, f'fault{k}.out')
-        _run_op_child(d, cfg, pool, op, 'fault', k, log, outp)
+        _run_op_child(d, cfg, pool, op, 'fault', k, log, outp, self.src)
         self.bump('fault_points')
         try:
             out = json.load(open(outp))
@@ -443,7 +499,7 @@ class Lab:
             for fn in os.listdir(os.path.join(d, 'packs')):
                 if fn.endswith('.lock'):
                     os.remove(os.path.join(d, 'packs', fn))
-            _run_op_child(d, cfg, pool, op, 'trace', -1, log, outp)
+            _run_op_child(d, cfg, pool, op, 'trace', -1, log, outp, self.src)
             try:
                 out2 = json.load(open(outp))
             except Exception:  # pylint: disable=broad-except
